@@ -1,7 +1,6 @@
 package main
 
 import (
-	"go/types"
 	"fmt"
 	"go/token"
 	"sort"
@@ -15,14 +14,16 @@ func init() {
 		ID:    "C11",
 		Title: "signing an OCI artifact signs exactly what was resolved and changes nothing else",
 		Run:   runC11,
-		Explain: "(a) ownership (interprocedural origin analysis over the call tree of SignOCI and SignBlob, closures included): every map update, slice element store and store through a pointer targets storage that is freshly made, or owned by the signer object, " +
-			"never storage reachable from the entry points' parameters (option maps) or from the descriptor Repository.Resolve returned; " +
-			"(b) provenance: Signer.Sign receives the descriptor returned by the metadata merge of (resolved descriptor, UserMetadata); PushSignature receives the caller's media type, the signature bytes Sign returned, the resolved descriptor itself as subject " +
-			"and the annotations generated from Sign's SignerInfo; the annotation generator stores hex(sha256(cert.Raw)) of every chain certificate under the thumbprint key and the signing time under the created key; " +
-			"the merge copies the descriptor's annotations and the metadata pairs into one fresh map; (c) gates: a digest reference that differs from the resolved digest, a reserved-prefix key and a key already present are fail-closed before Signer.Sign; " +
-			"the digest test is applied to the very string that was resolved; (d) the repository is used exactly for one Resolve and one PushSignature.",
+		Explain: "(a) ownership (interprocedural origin analysis over the call tree of SignOCI and SignBlob, closures included): every map update, bulk map copy (maps.Copy), slice element store and store through a pointer targets storage that is freshly made, or owned by the signer object, " +
+			"never storage reachable from the entry points' parameters (option maps) or from the descriptor Repository.Resolve returned — also when that descriptor was copied into a local variable whose address a helper received; " +
+			"(b) provenance, decided on SSA values: 'the resolved descriptor' is result 0 of Resolve, the result of a helper on the call path to Resolve whose every success-capable exit returns it, or a load of a local variable that holds nothing else and none of whose fields is written; " +
+			"Signer.Sign receives what the metadata merge of (resolved descriptor, UserMetadata) delivered (its result, or the local copy it filled in through a pointer); PushSignature receives the caller's media type, the signature bytes Sign returned, the resolved descriptor itself as subject " +
+			"and the annotations generated from Sign's SignerInfo; the annotation generator stores the lower-case hex text of sha256(cert.Raw) of every chain certificate under the thumbprint key and the signing time under the created key; " +
+			"the merge copies the descriptor's annotations (loop or maps.Copy) and the metadata pairs into one fresh map, replaces nothing but the Annotations of the descriptor it was handed and skips the replacement only without metadata; " +
+			"(c) gates: a digest reference that differs from the resolved digest, a reserved-prefix key (every element of the list: counting loop from 0 to its length, or slices.IndexFunc/ContainsFunc over the whole list with a HasPrefix predicate) and a key already present are fail-closed before Signer.Sign; " +
+			"the digest test is applied to the very string that was resolved, in the function that resolves (SignOCI or a helper whose success is a guard of Sign); (d) the repository parameter is used exactly for one Resolve and one PushSignature, counted per call path.",
 		NotCov:  "what a concrete repository does on push; writes performed inside Signer implementations and dependencies.",
-		Trusted: []string{"go/types, go/ssa", "Go map/slice aliasing semantics", "go-digest Parse", "signer-owned manifest annotation map (table entry)"},
+		Trusted: []string{"go/types, go/ssa", "Go map/slice aliasing semantics", "go-digest Parse / Digest.Validate / Digest.String", "maps.Copy, slices.IndexFunc, slices.ContainsFunc, fmt %x of a byte array (standard library contracts)", "signer-owned manifest annotation map (table entry)"},
 	})
 }
 
@@ -40,14 +41,14 @@ type originCtx struct {
 
 // external results: protected or allowed origins (one line of reason each).
 var externalOrigins = map[string]string{
-	"invoke:ngo/registry.Repository.Resolve":        "protected:descriptor returned by Repository.Resolve",
-	"invoke:ngo.Signer.Sign":                        "allowed:values returned by the signer",
-	"invoke:ngo.BlobSigner.SignBlob":                "allowed:values returned by the signer",
-	"maps.Clone":                                    "fresh",
-	"slices.Clone":                                  "fresh",
-	"encoding/json.Marshal":                         "fresh",
-	"crypto/sha256.Sum256":                          "fresh",
-	"encoding/hex.EncodeToString":                   "fresh",
+	"invoke:ngo/registry.Repository.Resolve": "protected:descriptor returned by Repository.Resolve",
+	"invoke:ngo.Signer.Sign":                 "allowed:values returned by the signer",
+	"invoke:ngo.BlobSigner.SignBlob":         "allowed:values returned by the signer",
+	"maps.Clone":                             "fresh",
+	"slices.Clone":                           "fresh",
+	"encoding/json.Marshal":                  "fresh",
+	"crypto/sha256.Sum256":                   "fresh",
+	"encoding/hex.EncodeToString":            "fresh",
 }
 
 func (oc *originCtx) of(fn *ssa.Function, v ssa.Value, depth int) []string {
@@ -132,6 +133,9 @@ func (oc *originCtx) of1(fn *ssa.Function, v ssa.Value, depth int) []string {
 			if al, ok := root.(*ssa.Alloc); ok {
 				return oc.allocDeepContent(fn, al, depth)
 			}
+			if p, ok := root.(*ssa.Parameter); ok {
+				return oc.pointeeContent(fn, p, depth)
+			}
 			return oc.of(fn, a.X, depth+1)
 		case *ssa.IndexAddr:
 			return oc.of(fn, a.X, depth+1)
@@ -139,6 +143,8 @@ func (oc *originCtx) of1(fn *ssa.Function, v ssa.Value, depth int) []string {
 			return oc.freeVarContent(fn, a, depth)
 		case *ssa.Global:
 			return []string{"global:" + desc(a)}
+		case *ssa.Parameter:
+			return oc.pointeeContent(fn, a, depth)
 		}
 		return oc.of(fn, x.X, depth+1)
 	case *ssa.Extract:
@@ -185,6 +191,37 @@ func (oc *originCtx) addrOrigins(fn *ssa.Function, fa *ssa.FieldAddr, depth int)
 		return []string{"fresh"}
 	}
 	return oc.of(fn, fa.X, depth+1)
+}
+
+// pointeeContent: origins of the values that can be loaded through a pointer parameter. The storage a caller's local
+// variable provides is the caller's own, but what it holds is whatever the caller put there: a struct copied from a
+// protected object still refers to that object's maps and slices (`c := resolved; helper(&c)` — the helper reads the
+// resolved descriptor's annotation map through its pointer).
+func (oc *originCtx) pointeeContent(fn *ssa.Function, p *ssa.Parameter, depth int) []string {
+	if oc.entries[fn] || len(oc.callers[fn]) == 0 || depth > 12 {
+		return oc.of(fn, p, depth+1)
+	}
+	idx := -1
+	for i, q := range fn.Params {
+		if q == p {
+			idx = i
+		}
+	}
+	var out []string
+	for _, call := range oc.callers[fn] {
+		if idx < 0 || idx >= len(call.Call.Args) {
+			continue
+		}
+		switch a := call.Call.Args[idx].(type) {
+		case *ssa.Alloc:
+			out = append(out, oc.allocDeepContent(call.Parent(), a, depth+1)...)
+		case *ssa.Parameter:
+			out = append(out, oc.pointeeContent(call.Parent(), a, depth+1)...)
+		default:
+			out = append(out, oc.of(call.Parent(), a, depth+1)...)
+		}
+	}
+	return out
 }
 
 // allocContent: origins of the values stored in a local Alloc (field < 0: whole value).
@@ -389,6 +426,9 @@ func ownershipWrites(c *Ctx, entries []*ssa.Function, rule string, mapsOnly bool
 						target, what = x.Call.Args[0], "delete"
 					} else if bi, ok := x.Call.Value.(*ssa.Builtin); ok && bi.Name() == "clear" {
 						target, what = x.Call.Args[0], "clear"
+					} else if n := calleeName(x); (n == "maps.Copy" || n == "maps.Insert") && len(x.Call.Args) == 2 {
+						// the standard library's bulk map update: `for k, v := range src { dst[k] = v }` on its first argument
+						target, what = x.Call.Args[0], "map copy"
 					} else {
 						continue
 					}
@@ -457,49 +497,60 @@ func c11SignOCI(c *Ctx, W *ssa.Function) {
 	fi := w.Info(W)
 	c.SeenFn(W.String())
 	site := w.FnPos(W)
-	var resolve, sign, push, merge, gen *ssa.Call
-	nRepo := 0
-	for _, ci := range allCalls(W) {
-		call, ok := ci.(*ssa.Call)
-		if !ok {
+	// (d) the repository calls, per call path of the static call tree (a helper's body counts where it is called)
+	var resolve, sign, push *ssa.Call
+	var resolvePath []*ssa.Call
+	repoCalls := c11RepoCalls(w, W)
+	okRepo := len(repoCalls) == 2
+	for _, rc := range repoCalls {
+		call, plain := rc.call.(*ssa.Call)
+		if !plain || rc.opaque {
+			okRepo = false
 			continue
 		}
-		n := calleeName(call)
-		if strings.HasPrefix(n, "invoke:ngo/registry.Repository.") {
-			nRepo++
-		}
-		switch n {
+		switch calleeName(call) {
 		case "invoke:ngo/registry.Repository.Resolve":
-			resolve = call
+			if resolve != nil {
+				okRepo = false
+			}
+			resolve, resolvePath = call, rc.path
 		case "invoke:ngo/registry.Repository.PushSignature":
-			push = call
-		case "invoke:ngo.Signer.Sign":
-			sign = call
-		}
-	}
-	c.Check(nRepo == 2 && resolve != nil && push != nil, "repository/only-resolve-and-push", "who-may-call: the repository is used for exactly one Resolve and one PushSignature", site, fmt.Sprintf("%d repository calls", nRepo))
-	if resolve == nil || push == nil || sign == nil {
-		c.Unk("anchors/calls", "anchors: Resolve, Signer.Sign, PushSignature", site, "not all found")
-		return
-	}
-	// the resolved descriptor cell
-	var cell ssa.Value
-	for _, b := range W.Blocks {
-		for _, in := range b.Instrs {
-			if st, ok := in.(*ssa.Store); ok {
-				if ex, ok := st.Val.(*ssa.Extract); ok && ex.Tuple == resolve && ex.Index == 0 {
-					cell = st.Addr
-				}
+			// the push is decided in the entry function's own frame
+			if push != nil || len(rc.path) > 0 {
+				okRepo = false
+			}
+			if len(rc.path) == 0 {
+				push = call
 			}
 		}
 	}
-	isResolved := func(v ssa.Value) bool {
-		if ex, ok := v.(*ssa.Extract); ok && ex.Tuple == resolve && ex.Index == 0 {
-			return true
+	for _, ci := range allCalls(W) {
+		if call, ok := ci.(*ssa.Call); ok && calleeName(call) == "invoke:ngo.Signer.Sign" {
+			sign = call
 		}
-		return cell != nil && unwrapLoad(v) == cell && v != cell
 	}
-	// the merge call: module callee receiving the resolved descriptor and UserMetadata
+	// both on the repository the caller handed in (a parameter passed down unchanged)
+	repoParam := ""
+	if resolve != nil && push != nil {
+		up := c11Up(resolve.Call.Value, resolvePath)
+		if p, ok := up.(*ssa.Parameter); !ok || p.Parent() != W || up != push.Call.Value {
+			okRepo = false
+			repoParam = "; Resolve and PushSignature are not both invoked on the repository parameter"
+		}
+	}
+	c.Check(okRepo && resolve != nil && push != nil, "repository/only-resolve-and-push", "who-may-call: the repository is used for exactly one Resolve and one PushSignature", site, fmt.Sprintf("%d repository calls on the call tree%s", len(repoCalls), repoParam))
+	if resolve == nil || push == nil || sign == nil {
+		c.Unk("anchors/calls", "anchors: Resolve (in SignOCI or a helper on its call tree), Signer.Sign, PushSignature", site, "not all found")
+		return
+	}
+	R := resolve.Parent() // the function that resolves: SignOCI itself or a helper
+	c.SeenFn(R.String())
+	res := &c11Res{w: w, resolve: resolve, path: resolvePath, busy: map[ssa.Value]bool{}}
+	isResolved := res.is
+	// the merge call: module callee receiving the caller's UserMetadata and the resolved descriptor — by value, or as a
+	// pointer to a local copy of it that the callee fills in
+	var merge, gen *ssa.Call
+	var copyCell *ssa.Alloc
 	for _, ci := range allCalls(W) {
 		call, ok := ci.(*ssa.Call)
 		if !ok {
@@ -510,16 +561,20 @@ func c11SignOCI(c *Ctx, W *ssa.Function) {
 			continue
 		}
 		hasD, hasM := false, false
+		var cell *ssa.Alloc
 		for _, a := range call.Call.Args {
 			if isResolved(a) {
 				hasD = true
+			}
+			if al, ok := a.(*ssa.Alloc); ok && c11CopyOfResolved(fi, res, al, call) {
+				hasD, cell = true, al
 			}
 			if strings.HasSuffix(desc(a), ".UserMetadata") {
 				hasM = true
 			}
 		}
 		if hasD && hasM {
-			merge = call
+			merge, copyCell = call, cell
 		}
 		if g.Signature.Results().Len() == 2 && strings.HasPrefix(g.Signature.Results().At(0).Type().String(), "map[string]string") {
 			for _, a := range call.Call.Args {
@@ -530,9 +585,16 @@ func c11SignOCI(c *Ctx, W *ssa.Function) {
 		}
 	}
 	// (b) provenance
+	// The descriptor signed is what the merge delivered: its result 0, or — when the merge works in place — the local copy
+	// of the resolved descriptor whose address it was given. c11CopyOfResolved has established that this variable is
+	// written once (the resolved descriptor, before the call) and that its address goes to the merge only; the merge rule
+	// establishes what the callee does through the pointer; gate/metadata-merge that Sign runs only after it succeeded.
 	okSign := false
 	if merge != nil {
-		if ex, ok := sign.Call.Args[1].(*ssa.Extract); ok && ex.Tuple == merge && ex.Index == 0 {
+		if ex, ok := sign.Call.Args[1].(*ssa.Extract); ok && ex.Tuple == merge && ex.Index == 0 && copyCell == nil {
+			okSign = true
+		}
+		if u, ok := sign.Call.Args[1].(*ssa.UnOp); ok && copyCell != nil && u.Op == token.MUL && u.X == ssa.Value(copyCell) {
 			okSign = true
 		}
 	}
@@ -559,7 +621,6 @@ func c11SignOCI(c *Ctx, W *ssa.Function) {
 		}
 	}
 	probeAgreement(c, W, "probe")
-	// success returns the resolved descriptor and the pushed manifest descriptor
 	// (c) gates before Sign
 	g := fi.GuardsOf(sign)
 	c.Evals++
@@ -569,52 +630,39 @@ func c11SignOCI(c *Ctx, W *ssa.Function) {
 	}
 	need("arguments", "valid sign arguments", "EQ(call:ngo.", "("+paramWhere(fi.Fn, isNamed("ngo.Signer"))+",", "#err,nil)")
 	need("repo-non-nil", "a non-nil repository", "NE("+paramWhere(fi.Fn, isNamed("ngo/registry.Repository"))+",nil)")
-	need("resolve", "a successful Resolve", "EQ("+desc(resolve)+"#err,nil)")
-	if merge != nil {
-		need("metadata-merge", "a successful metadata merge (reserved prefix / existing key refused)", "EQ("+desc(merge)+"#err,nil)")
+	// A gate of the resolving function R holds before Sign when R is SignOCI and it guards the Sign call, or when R is a
+	// helper: then it must hold on every success-capable exit of R, and Sign must be reachable only after the calls
+	// leading to R returned a nil error (c11ChainSucceeded).
+	chainOK, chainWhy := c11ChainSucceeded(w, W, resolvePath, sign)
+	if R == W {
+		need("resolve", "a successful Resolve", c11ErrLabel(resolve))
+	} else {
+		s := w.Summarize(R, Mode{Kind: mErr})
+		okRes := chainOK && len(s.Exits) > 0
+		why := chainWhy
+		for _, ex := range s.Exits {
+			if _, ok := hasLabel(ex.Checked, c11ErrLabel(resolve)); !ok {
+				okRes = false
+				why = fnName(R) + " can succeed although Resolve failed (exit at " + w.InstrPos(ex.Ret) + ")"
+			}
+		}
+		c.Check(okRes, "gate/resolve", "effect-site gate: Signer.Sign is reachable only through — a successful Resolve", w.InstrPos(sign), why)
 	}
-	// digest pinning on the resolved string
-	refV := resolve.Call.Args[1]
-	refD := desc(refV)
-	cut := fi.edgesMatching(func(l string, iff *ssa.If, truth bool) bool {
-		cond := stripNot(iff.Cond, &truth)
-		bo, ok := cond.(*ssa.BinOp)
-		if !ok {
-			return false
-		}
-		// refV == digest string
-		if bo.Op == token.EQL || bo.Op == token.NEQ {
-			other := ssa.Value(nil)
-			if bo.X == refV {
-				other = bo.Y
-			} else if bo.Y == refV {
-				other = bo.X
-			}
-			if other != nil {
-				d := desc(other)
-				if strings.HasPrefix(d, "call:(digest.Digest).String(") && strings.HasSuffix(d, ".Digest)") && ((bo.Op == token.EQL) == truth) {
-					return true
-				}
-			}
-			// digest.Parse(refV) err != nil
-			var o ssa.Value
-			if isNilConst(bo.Y) {
-				o = bo.X
-			} else if isNilConst(bo.X) {
-				o = bo.Y
-			}
-			if ex, ok := o.(*ssa.Extract); ok {
-				if call, ok := ex.Tuple.(*ssa.Call); ok && calleeName(call) == "digest.Parse" && call.Call.Args[0] == refV && ((bo.Op == token.NEQ) == truth) {
-					return true
-				}
-			}
-		}
-		return false
-	})
-	hit := fi.reachHit(entryState(), cut, blocksOf(sign))
+	if merge != nil {
+		need("metadata-merge", "a successful metadata merge (reserved prefix / existing key refused)", c11ErrLabel(merge))
+	}
+	// digest pinning on the resolved string, decided in the frame of the function that resolves
+	rfi := w.Info(R)
+	cut := res.digestEdges(rfi)
 	c.Evals++
+	var hit bool
+	if R == W {
+		hit = fi.reachHit(entryState(), cut, blocksOf(sign))
+	} else {
+		hit = !chainOK || rfi.successWitness(Mode{Kind: mErr}, entryState(), cut) != nil
+	}
 	c.Check(len(cut) >= 2 && !hit, "gate/digest-pinning", "effect-site gate (disjunctive): Signer.Sign is reachable only if the very string that was resolved equals the resolved digest or is not a digest at all", w.InstrPos(sign),
-		fmt.Sprintf("a digest reference (%s) resolving to another digest reaches the signer", refD))
+		fmt.Sprintf("a digest reference (%s) resolving to another digest reaches the signer", desc(resolve.Call.Args[1])))
 	if merge != nil {
 		c11Merge(c, staticCallee(merge))
 	}
@@ -623,89 +671,177 @@ func c11SignOCI(c *Ctx, W *ssa.Function) {
 	}
 }
 
-// c11Merge: the metadata merge.
-func c11Merge(c *Ctx, M *ssa.Function) {
-	w := c.W
-	fi := w.Info(M)
-	c.SeenFn(M.String())
-	var dP, mP string
-	for _, p := range M.Params {
-		switch {
-		case namedOf(p.Type()) == "ocispec.Descriptor":
-			dP = paramValueDesc(p)
-		case p.Type().String() == "map[string]string":
-			mP = "param:" + p.Name()
+// c11CopyOfResolved: al is a local copy of the resolved descriptor made for `call` to fill in: one whole-value store, of
+// the resolved descriptor, which no path can run after the call; the address is an argument of that one call; everything
+// else reads it.
+func c11CopyOfResolved(fi *FnInfo, res *c11Res, al *ssa.Alloc, call *ssa.Call) bool {
+	var init *ssa.Store
+	for _, r := range *al.Referrers() {
+		switch x := r.(type) {
+		case *ssa.Store:
+			if x.Addr != ssa.Value(al) || init != nil || !res.is(x.Val) {
+				return false
+			}
+			init = x
+		case *ssa.Call:
+			if x != call {
+				return false
+			}
+		case *ssa.UnOp, *ssa.DebugRef:
+		case *ssa.FieldAddr:
+			if addrWritten(x, 0) {
+				return false
+			}
+		default:
+			return false
 		}
 	}
+	return init != nil && c11Before(init, call) && !c11MayPrecede(fi, call, init)
+}
+
+// c11Merge: the metadata merge. Every clause is decided on SSA values: the descriptor object (the by-value parameter's
+// spill, or the pointer parameter of an in-place merge), its annotation map as handed in, and the key / value of the
+// current pair of the loop over the metadata — whether used directly or through a per-iteration variable.
+func c11Merge(c *Ctx, M *ssa.Function) {
+	w := c.W
+	c.SeenFn(M.String())
 	site := w.FnPos(M)
-	if dP == "" || mP == "" {
-		c.Unk("merge/shape", "anchor: merge(descriptor, metadata)", site, "parameters not recognised")
+	m, why := c11MergeRoles(w, M)
+	if m == nil {
+		c.Unk("merge/shape", "anchor: merge(descriptor, metadata)", site, why)
 		return
 	}
-	loop := findLoop(M, func(d string) bool { return d == mP })
-	if loop == nil {
+	if m.loop == nil {
 		c.Bad("merge/loop", "the merge visits every metadata pair", site, "no loop over the metadata")
 		return
 	}
-	lsite := w.InstrPos(blockTerm(loop.Header))
-	key := "rangekey(" + mP + ")"
-	labels, _ := fi.mustPassBetween([]int{loop.Body.Index}, map[int]bool{loop.Header.Index: true})
-	_, h := hasLabel(labels, "F(ok("+dP+".Annotations["+key+"]))")
-	c.Check(h, "merge/existing-key", "per-pair gate: a key already present in the artifact's annotations is refused", lsite, "an existing annotation can be overwritten; per-iteration facts: "+summarizeLabels(labels, 6))
-	// reserved prefixes: inner loop over the reserved list with F(HasPrefix(key, prefix)) per element, entered on every iteration
-	// the reserved prefixes: the package-level list of strings that holds the notary prefix
-	rp := "global:ngo." + w.globalWhere("", func(t types.Type) bool {
-		switch x := t.Underlying().(type) {
-		case *types.Array:
-			b, ok := x.Elem().Underlying().(*types.Basic)
-			return ok && b.Kind() == types.String
-		case *types.Slice:
-			b, ok := x.Elem().Underlying().(*types.Basic)
-			return ok && b.Kind() == types.String
+	fi := m.fi
+	lsite := w.InstrPos(blockTerm(m.loop.Header))
+	// existing key: the edges on which the comma-ok lookup of this pair's key in the annotations handed in says "absent"
+	cutE := fi.edgesMatching(func(_ string, iff *ssa.If, truth bool) bool {
+		cond := stripNot(iff.Cond, &truth)
+		ex, ok := cond.(*ssa.Extract)
+		if !ok || ex.Index != 1 || truth {
+			return false
 		}
-		return false
+		lk, ok := ex.Tuple.(*ssa.Lookup)
+		return ok && lk.CommaOk && m.origAnn(lk.X) && m.iterPart(lk.Index, 1)
 	})
-	inner := findLoop(M, func(d string) bool { return strings.HasPrefix(d, rp) })
+	c.Evals++
+	c.Check(c11IterGate(fi, m.loop, cutE), "merge/existing-key", "per-pair gate: a key already present in the artifact's annotations is refused", lsite, "an existing annotation can be overwritten: a pair can be taken over without its key having been looked up, and found absent, in the annotations of the descriptor handed in")
+	// reserved prefixes: every element of the package-level list that holds the notary prefix
 	okRes := false
-	if inner != nil {
-		il, _ := fi.mustPassBetween([]int{inner.Body.Index}, map[int]bool{inner.Header.Index: true})
-		_, h1 := hasLabel(il, "F(call:strings.HasPrefix("+key+","+rp+"[")
-		cut := map[edgeKey]bool{}
-		cutInto(fi, inner.Header, cut)
-		thru := !fi.reachHit([]state{{loop.Body.Index, 0, -1}}, cut, map[int]bool{loop.Header.Index: true})
-		okRes = h1 && thru
+	if rl := c11ReservedList(w); rl != nil {
+		okRes = m.reservedByLoop(rl) || m.reservedBySearch(rl)
 	}
+	c.Evals++
 	c.Check(okRes, "merge/reserved-prefix", "per-pair gate: a key with a reserved prefix (every element of the reserved list) is refused", lsite, "a reserved-prefix key can pass")
-	// the result: annotations field replaced by a fresh map that received both sources
-	s := w.Summarize(M, Mode{Kind: mErr})
-	okFresh := len(s.Exits) > 0
-	for _, ex := range s.Exits {
-		// result 0 is the descriptor value: its Annotations either unchanged (no metadata) or fresh
-		_ = ex
+	// the union: one fresh map U becomes the Annotations of the descriptor; it receives the annotations handed in (copy
+	// loop or maps.Copy — `for k, v := range src { dst[k] = v }` by definition) and the pair of each iteration; nothing
+	// else is written into a map here
+	var U ssa.Value
+	okFresh := len(m.annS) > 0
+	for _, s := range m.annS {
+		if U != nil && s.Val != U {
+			okFresh = false
+		}
+		U = s.Val
+	}
+	if _, isMake := U.(*ssa.MakeMap); !isMake {
+		okFresh = false
 	}
 	var copies, adds int
-	for _, b := range M.Blocks {
-		for _, in := range b.Instrs {
-			mu, ok := in.(*ssa.MapUpdate)
-			if !ok {
-				continue
+	dominates := func(in ssa.Instruction) bool {
+		for _, s := range m.annS {
+			if !c11Before(in, s) {
+				return false
 			}
-			if !freshMap(mu.Map, 0) {
-				okFresh = false
-			}
-			kd, vd := desc(mu.Key), desc(mu.Value)
-			switch {
-			case kd == "rangekey("+dP+".Annotations)" && vd == "rangeval("+dP+".Annotations)":
-				copies++
-			case kd == key && vd == "rangeval("+mP+")":
-				adds++
-			default:
-				okFresh = false
+		}
+		return true
+	}
+	for _, f := range append([]*ssa.Function{M}, closuresOf(M)...) {
+		for _, b := range f.Blocks {
+			for _, in := range b.Instrs {
+				switch x := in.(type) {
+				case *ssa.MapUpdate:
+					kx, _ := x.Key.(*ssa.Extract)
+					vx, _ := x.Value.(*ssa.Extract)
+					switch {
+					case x.Map != U || f != M:
+						okFresh = false
+					case m.iterPart(x.Key, 1) && m.iterPart(x.Value, 2):
+						adds++
+					case kx != nil && vx != nil && kx.Tuple == vx.Tuple && kx.Index == 1 && vx.Index == 2:
+						n, isNext := kx.Tuple.(*ssa.Next)
+						if isNext && m.origAnn(rangeOperand(n)) && dominates(blockTerm(n.Block())) {
+							copies++
+						} else {
+							okFresh = false
+						}
+					default:
+						okFresh = false
+					}
+				case *ssa.Call:
+					if _, isB := x.Call.Value.(*ssa.Builtin); isB {
+						if bi := x.Call.Value.(*ssa.Builtin); bi.Name() == "delete" || bi.Name() == "clear" {
+							okFresh = false
+						}
+						continue
+					}
+					uses := false
+					for _, a := range x.Call.Args {
+						if a == U && U != nil {
+							uses = true
+						}
+					}
+					if !uses {
+						continue
+					}
+					if calleeName(x) == "maps.Copy" && x.Call.Args[0] == U && m.origAnn(x.Call.Args[1]) && dominates(x) && f == M {
+						copies++
+					} else {
+						okFresh = false
+					}
+				}
 			}
 		}
 	}
 	c.Check(okFresh && copies == 1 && adds == 1, "merge/fresh-union", "the merged annotations are a fresh map filled with the artifact's own annotations and the metadata pairs (key -> value of the same iteration)", site,
 		fmt.Sprintf("copies=%d adds=%d all-fresh=%v", copies, adds, okFresh))
+	// the result: the descriptor handed in with nothing but its Annotations replaced (c11MergeRoles refuses any other
+	// write to it); delivered as result 0 (by-value form) or left in the caller's variable (in-place form); an exit that
+	// does not pass the replacement is possible only when there is no metadata
+	s := w.Summarize(M, Mode{Kind: mErr})
+	okResult := len(s.Exits) > 0
+	detail := ""
+	noAssign := map[edgeKey]bool{}
+	for _, st := range m.annS {
+		cutInto(fi, st.Block(), noAssign)
+	}
+	for _, ex := range s.Exits {
+		if !m.ptr {
+			u, ok := ex.Ret.Results[0].(*ssa.UnOp)
+			if !(ok && u.Op == token.MUL && u.X == m.D) && ex.Ret.Results[0] != ssa.Value(m.dPar) {
+				okResult = false
+				detail = "the exit at " + w.InstrPos(ex.Ret) + " returns " + desc(ex.Ret.Results[0]) + ", not the descriptor handed in"
+			}
+		}
+		inAssignBlock := false
+		for _, st := range m.annS {
+			if st.Block() == ex.Ret.Block() || st.Block().Index == 0 {
+				inAssignBlock = true
+			}
+		}
+		if inAssignBlock || !fi.reachHit(entryState(), noAssign, blocksOf(ex.Ret)) && ex.Ret.Block().Index != 0 {
+			continue
+		}
+		if _, ok := ex.Checked["EQ(len("+desc(m.mPar)+"),const:0)"]; !ok {
+			okResult = false
+			detail = "the exit at " + w.InstrPos(ex.Ret) + " succeeds without the merged annotations although there is metadata"
+		}
+	}
+	c.Evals++
+	c.Check(okResult, "merge/result", "on success the merge delivers the descriptor it was handed with only the Annotations replaced by the merged map; the annotations stay as handed in only when there is no metadata", site, detail)
 }
 
 func paramValueDesc(p *ssa.Parameter) string {
@@ -727,7 +863,8 @@ func c11Annotations(c *Ctx, G *ssa.Function) {
 	site := w.FnPos(G)
 	tk, _ := w.constString("internal/envelope", "AnnotationX509ChainThumbprint")
 	ck, _ := w.depConstString("github.com/opencontainers/image-spec/specs-go/v1", "AnnotationCreated")
-	si := "param:" + G.Params[0].Name()
+	// the signer info parameter, by type (its position is not part of the behaviour)
+	si := paramWhere(G, isNamed("core/signature.SignerInfo"))
 	var okT, okC bool
 	for _, b := range G.Blocks {
 		for _, in := range b.Instrs {
@@ -744,7 +881,8 @@ func c11Annotations(c *Ctx, G *ssa.Function) {
 			}
 		}
 	}
-	// thumbprints: loop over the chain appending hex(sha256(cert.Raw))
+	// thumbprints: loop over the chain appending the hex text of sha256(cert.Raw) of this iteration's certificate;
+	// the text is followed back, as SSA values, to the Sum256 call it renders (c11HexOfSum)
 	loop := findLoop(G, func(d string) bool { return d == si+".CertificateChain" })
 	okLoop := false
 	if loop != nil {
@@ -753,16 +891,15 @@ func c11Annotations(c *Ctx, G *ssa.Function) {
 			if !ok {
 				continue
 			}
-			if bi, ok := call.Call.Value.(*ssa.Builtin); ok && bi.Name() == "append" {
+			if bi, ok := call.Call.Value.(*ssa.Builtin); ok && bi.Name() == "append" && loopBlocks(loop.Header)[call.Block().Index] {
 				for _, el := range appendedElems(call.Call.Args[1]) {
-					d := desc(el)
-					if strings.HasPrefix(d, "call:encoding/hex.EncodeToString(") && loopBlocks(loop.Header)[call.Block().Index] {
-						// the hashed bytes are cert.Raw of this iteration
-						for _, c2 := range allCalls(G) {
-							if cc, ok := c2.(*ssa.Call); ok && calleeName(cc) == "crypto/sha256.Sum256" && strings.HasPrefix(desc(cc.Call.Args[0]), si+".CertificateChain[") && strings.HasSuffix(desc(cc.Call.Args[0]), "].Raw") {
-								okLoop = true
-							}
-						}
+					sum := c11HexOfSum(el)
+					if sum == nil || !loopBlocks(loop.Header)[sum.Block().Index] {
+						continue
+					}
+					// the hashed bytes are cert.Raw of this iteration
+					if d := desc(sum.Call.Args[0]); strings.HasPrefix(d, si+".CertificateChain[") && strings.HasSuffix(d, "].Raw") {
+						okLoop = true
 					}
 				}
 			}
@@ -793,7 +930,9 @@ func c11AnnotationsWin(c *Ctx, G *ssa.Function) {
 		key string
 	}
 	required := map[string]func(string) bool{
-		fmt.Sprintf("const:%q", tp): func(v string) bool { return strings.HasPrefix(v, "convert(call:encoding/json.Marshal(") || strings.HasPrefix(v, "call:encoding/json.Marshal(") },
+		fmt.Sprintf("const:%q", tp): func(v string) bool {
+			return strings.HasPrefix(v, "convert(call:encoding/json.Marshal(") || strings.HasPrefix(v, "call:encoding/json.Marshal(")
+		},
 		fmt.Sprintf("const:%q", cr): func(v string) bool {
 			return strings.HasPrefix(v, "call:(time.Time).Format(call:ngo/internal/envelope.SigningTime("+sp+")#0,")
 		},
